@@ -182,8 +182,14 @@ class Worker:
         w, ch = self.w, self.w.ch
         rev = ctx.git_rev
         if w.cfg['faults'] and ch.flip('w.stale_rev', 1, 12):
-            rev = 'stale'
+            # a worker of another release: unrelated label, no label, an abbreviation of the current one, the
+            # release it registered with last time, or a longer label that starts with the current one
+            cur = str(rev)
+            alts = ['stale', '', cur[:-1], self.registered_rev if self.registered_rev is not None else 'stale', cur + '0']
+            alts = [a for a in alts if a != cur] or ['stale']
+            rev = alts[ch.choose('w.stale_kind', len(alts))]
             w.sim.count('fault.worker_stale_revision')
+            w.probes['stale_rev_prefix_related'] += bool(rev == '' or cur.startswith(rev) or rev.startswith(cur))
         self.inc += 1
         self.got_task = False
         try:
@@ -499,6 +505,15 @@ class PipeWorld:
         farm.clear = clear
 
         def append(entry):
+            if w.cfg['faults'] and w.cfg.get('journal_faults', True) and w.in_reply and w.ch.flip('fault.journal', 1, 20):
+                # disk error under the history journal (full disk): the write fails before anything reaches the file
+                import errno
+
+                w.sim.count('fault.journal_write_fails')
+                w.reply_fault = True
+                e = OSError(errno.ENOSPC, 'No space left on device (sim)')
+                e.sim_injected = True  # raised from a harness frame on purpose: the reactor sees it as the code's own
+                raise e
             r = real['append'](entry)
             w.chron.append((entry['task'], entry['target'], entry['runid'], entry['status']))
             return r
@@ -511,6 +526,7 @@ class PipeWorld:
         chronicle.append = append
         self.sim.after_step.append(self.after_step)
         self.active_at_step_start = False
+        self.in_reply = self.reply_fault = False
         import dawgie
         import dawgie.db
 
@@ -743,7 +759,7 @@ class PipeWorld:
                 self.violate('C04', 'runnable_not_released', f'{self.ref.kind[alg]}',
                              f'{alg}[{t}] is pending, all upstream idle, not released by this dispatch; '
                              f'code todo/doing/do before={before.get(alg)}; upstream (code state, owed, in flight): {anc}; '
-                             f'being dispatched: {[j.tag for j in farm._jobs]}')
+                             f'being dispatched: {[j.tag for j in getattr(farm, "_jobs", ())]}')
         return jobs
 
     def also_owed(self, alg, t, what):
@@ -919,6 +935,11 @@ class PipeWorld:
         self.op(f'w{worker.idx} replies {m.jobid}[{m.target or ALL}] run={m.runid} '
                 f'{ {True: "success", False: "failure", None: "invalid"}[outcome]} new={news}')
 
+    def load_coming(self):
+        import dawgie.context as ctx
+
+        return getattr(getattr(ctx, 'fsm', None), 'state', None) in ('updating', 'loading')
+
     def store_as_worker(self, m):
         """what the real worker's ds.update() leaves in the pipeline's tables before it replies: one primary row per
         value under the run id of the task (through the database port in reality, written straight here).  Without
@@ -985,12 +1006,15 @@ class PipeWorld:
         before, qb = self.snap()
         nchron = len(self.chron)
         escaped = None
+        self.in_reply, self.reply_fault = True, False
         try:
             self.real['_res'](msg)
         except Exception as e:  # noqa  (judged like any other outcome, then handed on to the reactor as the real code would see it)
             escaped = e
             self.probes['exception_escaped_reply_handling'] += 1
             self.op(f'exception escaped the handling of the reply: {e!r}')
+        finally:
+            self.in_reply = False
         try:
             self.judge_reply(msg, unit, alg, t, stale, current, before, qb, nchron)
         finally:
@@ -1029,6 +1053,26 @@ class PipeWorld:
             # C03 (iii) / C18 (a): exactly one chronicle entry
             new = self.chron[nchron:]
             want = (alg, t, msg.runid, status)
+            if self.reply_fault:
+                # injected disk error while this completion was being journalled: the reply's follow-on (history
+                # entry, propagation, withdrawal of dependents) is forfeited - deliberately and only for this reply.
+                # What must still hold: the unit is no longer executing anywhere (checked by the invariants after
+                # this step: crew view, idle-means-idle, liveness), nothing wrong is recorded, nothing is triggered.
+                self.probes['completion_lost_to_journal_fault'] += 1
+                if new:
+                    self.violate('C18', 'completion_not_recorded_once', f'n={len(new)}:{status}:after_journal_fault',
+                                 f'the journal write of {want} failed, yet entries {new} were recorded')
+                if t in after.get(alg, ((), (), ()))[1]:
+                    for pr in ('C03', 'C04'):
+                        self.violate(pr, 'unit_still_executing_after_reply', 'journal_fault',
+                                     f'{alg}[{t}] was answered ({status}) and is with no worker, but the scheduler still holds it as executing after the '
+                                     f'journal write failed: it can never be released again and the queue never empties')
+                for y in after:
+                    grew = set(after[y][0]) - set(before[y][0])
+                    if grew:
+                        self.violate('C02', 'triggered_without_new_input', ref.kind.get(y, '?'),
+                                     f'{alg}[{t}] (journal write failed) made {y} pending for {sorted(grew)}')
+                return
             if new.count(want) != 1 or len(new) != 1:
                 self.violate('C03', 'result_not_recorded_once', f'n={len(new)}',
                              f'reply {want} produced chronicle entries {new}')
@@ -1056,10 +1100,16 @@ class PipeWorld:
                 # C03 (iii) second half: propagation is visible at once
                 have = set(after[y][0])  # pending; an execution already in flight started before this report and does not count
                 missing = ts - have
+                if missing and self.load_coming():
+                    # the reload has begun (database closed, schedule about to be rebuilt from scratch by the load):
+                    # whatever this reply adds to the pending sets is discarded with them a moment later
+                    self.probes['report_in_reload_window_not_judged'] += 1
+                    missing = set()
                 if missing:
-                    self.violate('C02', 'new_value_not_propagated', ref.kind[y],
-                                 f'{alg}[{t}] reported {sorted(newvals)} new; {y} declares one as input but '
-                                 f'{sorted(missing)} not pending for it after the reply')
+                    for pr in ('C02', 'C03'):  # C02 'run again after that report'; C03 'its new-value report is propagated'
+                        self.violate(pr, 'new_value_not_propagated', ref.kind[y],
+                                     f'{alg}[{t}] reported {sorted(newvals)} new; {y} declares one as input but '
+                                     f'{sorted(missing)} not pending for it after the reply')
             if newvals:
                 self.probes['reply_with_new_values'] += 1
             # nothing else may have been triggered (C02 minimality, at the source)
@@ -1145,11 +1195,12 @@ class PipeWorld:
             self.violate('C03', 'queue_conservation', 'cluster', f'farm queue {cl} != released-unhanded {sorted(G.queued)}')
         # C03 (ii'): a unit the scheduler marked as executing is in the farm (being converted, queued, or with a
         # worker) - it is never lost between the scheduler and the farm
-        inconv = {j.tag for j in farm._jobs}
+        inconv = {j.tag for j in getattr(farm, '_jobs', ())}  # (the list is the farm's; a tree without it keeps nothing there)
         for tag, t in sorted(G.converting):
             if tag not in inconv:
-                self.violate('C03', 'released_unit_lost', 'not_in_farm',
-                             f'{tag}[{t}] was released by the scheduler but is neither waiting to be dispatched, queued in the farm nor with a worker')
+                for pr in ('C03', 'C11'):  # C03 'otherwise stays queued'; C11 'tasks that cannot be placed stay queued'
+                    self.violate(pr, 'released_unit_lost', 'not_in_farm',
+                                 f'{tag}[{t}] was released by the scheduler but is neither waiting to be dispatched, queued in the farm nor with a worker')
         # C03 (iv): crew view of busy == handed and unanswered
         busy = sorted(b.split(' duration')[0] for b in farm.crew()['busy'])
         want = sorted(f'{u[0]}[{u[1]}]' for u in G.handed)
@@ -1230,7 +1281,9 @@ class PipeWorld:
             self.pending = aegen.evolve(ch, self.spec, max_total=cfg['max_total'], graph_edits=cfg.get('graph_edits', True))
             if ch.flip('u.newrev', 1, 2):
                 self.rev_n += 1
-                os.environ['DAWGIE_DOCKERIZED_AE_GIT_REVISION'] = f'rev{self.rev_n}'
+                # release labels either count up or grow (v2.1 -> v2.1.1): the old one is then a prefix of the new
+                cur = os.environ['DAWGIE_DOCKERIZED_AE_GIT_REVISION']
+                os.environ['DAWGIE_DOCKERIZED_AE_GIT_REVISION'] = (cur + str(self.rev_n % 10)) if ch.flip('u.rev_grows', 1, 2) else f'rev{self.rev_n}'
             self.op(f'user: software update {self.pending.change_log} rev={os.environ["DAWGIE_DOCKERIZED_AE_GIT_REVISION"]}; reset')
             self.probes['software_update'] += 1
             api.cmd_reset(archive=['true' if ch.flip('u.archive', 1, 4) else 'false'])
